@@ -256,7 +256,7 @@ def equ_cases(rnd, n=120):
         last = nm[depth]
         uses = rnd.sample([("LDX", "imm", "#" + last), ("LDA", "mem", last), ("LDD", "extind", "[" + last + "]"), ("LDA", "idx", last + ",X"),
                            ("FDB", "fdb", last), ("LDX", "imm", "#" + last + "+1"), ("LDD", "imm", "#2*" + last), ("LDU", "mem", last + "-" + nm[0]),
-                           ("LEAX", "idx", last + ",Y"), ("CMPX", "imm", "#" + nm[1])], rnd.choice([1, 2, 3]))
+                           ("LEAX", "idx", last + ",Y"), ("CMPX", "imm", "#" + nm[1]), ("FDB", "fdblist", "1," + last + "," + last + "+1")], rnd.choice([1, 2, 3]))
         body = [" %s %s" % (mn, t) for mn, _, t in uses]
         order = rnd.randrange(3)
         rnd.shuffle(defs) if rnd.random() < 0.5 else None
@@ -273,7 +273,8 @@ def equ_cases(rnd, n=120):
         if rnd.random() < 0.5:
             lines = [" ORG $0E00"] + lines
             base += 1
-        yield {"lines": L(*lines), "tag": "equ-chain", "meta": {"uses": [(base + i, pos, t.lstrip("#").strip("[]").split(",")[0]) for i, (mn, pos, t) in enumerate(uses)]}}
+        yield {"lines": L(*lines), "tag": "equ-chain", "meta": {"uses": [(base + i, pos, last if pos == "fdblist" else t.lstrip("#").strip("[]").split(",")[0])
+                                                                          for i, (mn, pos, t) in enumerate(uses)]}}
     # labels in EQU expressions: the symbol has the value of the expression; definition order does not matter
     for org in ("", " ORG $1000", " ORG $FF00"):
         for late in (False, True):
@@ -479,7 +480,7 @@ def random_programs(rnd, n, valid_bias=0.8):
                 elif mn == "FCC":
                     op = rnd.choice(["\"HI THERE\"", "'x'", "/A B/"])
                 elif mn in ("FCB", "FDB"):
-                    op = rnd.choice(["1", "1,2,3", "$FF", "C1", "$12" if mn == "FCB" else "$1234", "1,C1", "C1,C2" if mn == "FCB" else "L1,L2,C1+1"])
+                    op = rnd.choice(["1", "1,2,3", "$FF", "C1", "$12" if mn == "FCB" else "$1234", "1,C1", "C1,C2" if mn == "FCB" else "L1,L2,C1+1", "C1" if mn == "FCB" else "L1"])
                 elif mn == "RMB":
                     op = rnd.choice(["1", "4", "100"])
                 elif mn in ("EQU", "ORG", "INCLUDE", "END", "NAM", "SETDP"):
